@@ -83,7 +83,11 @@ fn run_path2(prop: &'static str, sealed: bool, tcp: bool, cfg_idx: Option<u8>, p
                     acc.violation(v);
                 }
             }
-            return false;
+            // a breach that belongs to another property does not end the path: the reference stays on its
+            // course, and what this property says about the steps that follow is still judged (a request
+            // that silently left the outstanding set is C05's finding at this step and C06's / C18's at
+            // the retransmission that never comes)
+            return br.iter().all(|b| b.property != prop);
         }
         true
     };
@@ -198,6 +202,7 @@ pub fn sweep(ctx: &Ctx) -> Acc {
     acts.push(Act::Cancel { id: 0 });
     // a poll whose instant lies before the previous call's (a stale clock sample)
     acts.push(Act::Poll { when: When::Past, order: 0 });
+    acts.extend(neutral_acts());
     // pairs: reconfigure / cancel_retransmissions / dropped response, then reconfigure / cancel_retransmissions
     let firsts: Vec<Act> = (0..N_NAMED_CFGS as u8).map(|c| Act::Configure { id: 0, cfg: c }).chain([Act::CancelRtx { id: 0 }, Act::Resp { id: 0, class: 2, auth: Auth::None, from: 0 }]).collect();
     let seconds: Vec<Act> = (0..N_NAMED_CFGS as u8).map(|c| Act::Configure { id: 0, cfg: c }).chain([Act::CancelRtx { id: 0 }]).collect();
@@ -225,15 +230,38 @@ pub fn interventions(ctx: &Ctx, prop: &'static str, sealed: bool, acts: &[Act]) 
     }
     // every path twice: plain, and with a TRACE tracing subscriber as the thread's dispatcher (log
     // statements evaluate their arguments only then)
+    // ... and once more under one of DEBUG / INFO / WARN / ERROR in turn (with INFO the library's spans are
+    // recorded while its debug! events are not)
     let sink = super::model::sink_dispatch(tracing::Level::TRACE);
     ijobs
         .par_iter()
-        .fold(Acc::default, |mut acc, (tcp, c, iv, pat)| {
+        .enumerate()
+        .fold(Acc::default, |mut acc, (n, (tcp, c, iv, pat))| {
             run_path(prop, sealed, *tcp, *c, &vec![*pat; 12], Some(*iv), &mut acc);
             tracing::dispatcher::with_default(&sink, || run_path(prop, sealed, *tcp, *c, &vec![*pat; 12], Some(*iv), &mut acc));
+            let other = super::model::sink_dispatch(super::model::LEVELS[1 + (n + iv.at) % 4]);
+            tracing::dispatcher::with_default(&other, || run_path(prop, sealed, *tcp, *c, &vec![*pat; 12], Some(*iv), &mut acc));
             acc
         })
         .reduce(Acc::default, |a, b| a.merge(b))
+}
+
+/// Calls that concern no transaction or another one - a request or indication arriving under the id of
+/// the request under way (a reflected / hairpinned check) or under another id, a response for an unknown
+/// id, a duplicate send (refused), an indication sent, credentials set: at whatever position, the
+/// transaction under way keeps its schedule, its bytes and its completion.  Every sweep includes them.
+pub fn neutral_acts() -> Vec<Act> {
+    vec![
+        Act::Incoming { class: 0, id: 0, from: 2 },
+        Act::Incoming { class: 1, id: 0, from: 0 },
+        Act::Incoming { class: 0, id: 0, from: 0 },
+        Act::Incoming { class: 1, id: 3, from: 2 },
+        Act::Resp { id: 3, class: 2, auth: Auth::None, from: 0 },
+        Act::Send { id: 0, dest: 1, seal: Seal::None, shape: 0 },
+        Act::SendOther { kind: 1, dest: 1 },
+        Act::SetRemote { key: 2 },
+        Act::SetLocal { key: 3 },
+    ]
 }
 
 /// Two interventions at every pair of positions (i <= j) of single-transaction schedules: what one
@@ -317,6 +345,7 @@ pub fn transmission_sweep(ctx: &Ctx) -> Acc {
     acts.push(Act::SendOther { kind: 3, dest: 1 });
     acts.push(Act::SendOther { kind: DATA_KIND, dest: 2 });
     acts.push(Act::Send { id: 1, dest: 2, seal: Seal::None, shape: 1 });
+    acts.extend(neutral_acts());
     let firsts = [Act::Configure { id: 0, cfg: 1 }, Act::Configure { id: 0, cfg: 4 }, Act::CancelRtx { id: 0 }, Act::SetLocal { key: 0 }, Act::SetRemote { key: 2 }, Act::Send { id: 1, dest: 2, seal: Seal::Sha256, shape: 1 }];
     let seconds = [Act::Configure { id: 0, cfg: 3 }, Act::Resp { id: 0, class: 2, auth: Auth::Sha1(2), from: 2 }, Act::SendOther { kind: 2, dest: 1 }, Act::Cancel { id: 1 }];
     interventions(ctx, "C18", true, &acts).merge(pair_interventions(ctx, "C18", true, &firsts, &seconds))
@@ -330,6 +359,10 @@ pub fn forgery_sweep(ctx: &Ctx) -> Acc {
     for auth in [Auth::Sha1(2), Auth::None, Auth::Sha1Flipped(1), Auth::Sha1(0), Auth::Sha256(2), Auth::Sha1(1), Auth::Sha256(1), Auth::Both(1), Auth::Sha256Trunc(1), Auth::Sha256Trunc(2), Auth::Sha256Flipped(1), Auth::MixedSha1Good(1), Auth::MixedSha256Good(1), Auth::MixedSha256Good(2), Auth::Sha1WireLenFp(1), Auth::Sha256WireLenFp(1)] {
         acts.push(Act::Resp { id: 0, class: 2, auth, from: 0 });
     }
+    // MESSAGE-INTEGRITY-SHA256 of every declared length around the admissible ones
+    for n in [0u8, 4, 15, 16, 17, 18, 19, 20, 21, 23, 27, 29, 31, 33, 36] {
+        acts.push(Act::Resp { id: 0, class: 2, auth: Auth::Sha256Len(1, n), from: 0 });
+    }
     acts.push(Act::Resp { id: 0, class: 3, auth: Auth::None, from: 2 });
     acts.push(Act::Resp { id: 0, class: 3, auth: Auth::Sha1(1), from: 2 });
     for f in RESP_FLAVOURS {
@@ -337,6 +370,7 @@ pub fn forgery_sweep(ctx: &Ctx) -> Acc {
             acts.push(Act::Resp { id: 0, class: f, auth, from: 0 });
         }
     }
+    acts.extend(neutral_acts().into_iter().filter(|a| !matches!(a, Act::SetRemote { .. } | Act::SetLocal { .. })));
     // pairs: a forged response / a change of remote credentials, then a genuine or forged response
     let firsts = [Act::Resp { id: 0, class: 2, auth: Auth::Sha1(2), from: 0 }, Act::Resp { id: 0, class: 2, auth: Auth::None, from: 0 }, Act::Resp { id: 0, class: 4, auth: Auth::None, from: 0 }, Act::Resp { id: 0, class: 2, auth: Auth::MixedSha1Good(1), from: 0 }, Act::SetRemote { key: 2 }, Act::SetRemote { key: 3 }, Act::SetLocal { key: 3 }, Act::Configure { id: 0, cfg: 1 }];
     let seconds = [Act::Resp { id: 0, class: 2, auth: Auth::Sha1(1), from: 0 }, Act::Resp { id: 0, class: 2, auth: Auth::Sha256(2), from: 0 }, Act::Resp { id: 0, class: 3, auth: Auth::Sha1(3), from: 0 }, Act::Resp { id: 0, class: 2, auth: Auth::Sha1Flipped(1), from: 0 }, Act::SetRemote { key: 1 }];
@@ -347,6 +381,7 @@ pub fn replay(prop: &str, rp: &Value) -> Vec<Violation> {
     // a schedule path is an ordinary agent history
     let mut v = rp.clone();
     v["model"] = serde_json::json!("agent");
+    v["continue_foreign"] = serde_json::json!(true);
     let mut out = super::model::replay(prop, &v);
     for x in out.iter_mut() {
         x.replay = rp.clone();
